@@ -72,7 +72,7 @@ PROBES = ['cfg:faults', 'cfg:fault-free', 'kind:tcpserver', 'kind:unixserver', '
           'payload-empty', 'payload-large', 'fatal-signalled', 'post-payload-written', 'flushed-in-full']
 TIERS = {
     'quick': dict(runs=50000, wall=26, chunk=60, cfg=dict(max_ops=16, large=(60_000, 300_000), max_total=450_000, large_w=1)),
-    'thorough': dict(runs=200000, wall=600, chunk=400, cfg=dict(max_ops=40, large=(300_000, 4_000_000), max_total=9_000_000, large_w=2)),
+    'thorough': dict(runs=200000, wall=600, chunk=40, cfg=dict(max_ops=40, large=(300_000, 2_500_000), max_total=6_000_000, large_w=2)),
 }
 
 K_CLIENT = 'C11/client/transient-errno/payload-lost'
